@@ -2,7 +2,7 @@
    kind 0301: FS model vs the Linux kernel (random syscall sequences in a chroot jail).
    kind 0302: real fsutil.Receive fed by a hostile sender vs recv_fs (see below). *)
 From Coq Require Import List NArith Bool.
-From FS Require Import Sx Model.Path Model.Stat Model.Validator Model.Fs Model.DiskWriterFs Model.RecvSpec.
+From FS Require Import Sx Model.Path Model.Stat Model.Validator Model.Fs Model.DiskWriterFs Model.RecvMeta Model.RecvSpec.
 Import ListNotations.
 Open Scope N_scope.
 Open Scope bool_scope.
@@ -71,6 +71,11 @@ Definition step_0301 (st : ctx * fs) (op : sx) : option (ctx * fs * result) :=
     | (f1, RFd i) => ret (fd_pwrite f1 i (N.to_nat off) d)
     | x => ret x
     end
+  | SL [SN 19; SB p; SN m; SB d] =>
+    match sys_open_trunc c f p m with
+    | (f1, RFd i) => ret (fd_pwrite f1 i 0 d)
+    | x => ret x
+    end
   | SL [SN 10; SB p] => ret (sys_unlink c f p)
   | SL [SN 11; SB p] => ret (sys_rmdir c f p)
   | SL [SN 12; SB p] => ret (sys_remove_all c f p)
@@ -104,7 +109,8 @@ Definition run_0301 (input impl : sx) : sx :=
   end.
 
 (* ================= kind 0302: the real Receive fed by a scripted hostile sender =================
-   input = (setup-ops dest packets merge); impl = (class t0 destreal before after) with RAW lstat
+   input = (setup-ops dest packets merge [opts]); opts = (metaonly filter), each () = nil or
+   (default (path ...)): the callback answers default except on the listed paths.  impl = (class t0 destreal before after) with RAW lstat
    snapshots of the whole jail (see harness/c03_recv.go).
    model         = recv_fs on the file system the setup ops build (Model/DiskWriterFs.v);
    specification = C03, evaluated on the two raw snapshots only (nothing of the model):
@@ -210,21 +216,41 @@ Definition outside_key_nometa (dest : bytes) (shared : list N) (e : rawent) : sx
 Definition outside_view_nometa (dest : bytes) (shared : list N) (l : list rawent) : sx :=
   SL (map (outside_key_nometa dest shared) (filter (fun e => negb (strictly_below dest (re_path e))) l)).
 
-Definition run_0302 (input impl : sx) : sx :=
-  match input, impl with
-  | SL [SL ops; SB dest; SL pks; SN mg], SL [SN cls; SN t0; SB destreal; bf; af] =>
+(* a callback of ReceiveOpt: () = nil, (default (path ...)) *)
+Definition dec_pred (x : sx) : option (option (stat -> bool)) :=
+  match x with
+  | SL [] => Some None
+  | SL [d; SL ps] =>
+    b <- sx_bool d ;;
+    l <- omap (fun y => match y with SB p => Some p | _ => None end) ps ;;
+    Some (Some (fun s : stat => xorb b (mem_bytes (st_path s) l)))
+  | _ => None
+  end.
+
+Definition run_0302_opt (ops : list sx) (dest : bytes) (pks : list sx) (mg : N) (mo : option (stat -> bool)) (impl : sx) : sx :=
+  match impl with
+  | SL [SN cls; SN t0; SB destreal; bf; af] =>
     match run_ops (ctx_init, fs_init) ops [], omap dec_packet pks, sx_list dec_rawent bf, sx_list dec_rawent af with
     | Some (f0, _), Some packets, Some before, Some after =>
       match resolve_ino ctx_init f0 dest true, resolve_ino ctx_init f0 dest false with
       | inl d0, inl dlno =>
         let dl := match get f0 dlno with Some {| i_kind := KLink _ |} => true | _ => false end in
-        let st := recv_fs f0 1 d0 dl (negb (N.eqb mg 0)) [] packets in
-        let model := SL [SN (recv_class st); enc_snapshot (snapshot_from f0 1); enc_snapshot (snapshot_from (r_fs st) 1)] in
-        let implv := SL [SN cls; conv_snapshot t0 before; conv_snapshot t0 after] in
+        let st := recv_fs_opt f0 1 d0 dl (negb (N.eqb mg 0)) mo [] packets in
+        (* A receive loop that dies in the closed-channel panic runs its deferred errgroup Done
+           on the way down: Receive's g.Wait() returns nil and the epilogue of a metadata transfer
+           races with the death of the process — dest/.fsutil-metadata is found untouched,
+           removed, empty or written.  For these runs the correspondence (not the specification
+           below) leaves that one entry out on both sides. *)
+        let racy := match mo with Some _ => N.eqb (recv_class st) 3 | None => false end in
+        let lp := child_path destreal listing_name in
+        let keep (p : bytes) := negb (racy && (bytes_eqb p lp || strictly_below lp p)) in
+        let model := SL [SN (recv_class st); enc_snapshot (snapshot_from f0 1);
+                         enc_snapshot (filter (fun e : bytes * N * inode => keep (fst (fst e))) (snapshot_from (r_fs st) 1))] in
+        let implv := SL [SN cls; conv_snapshot t0 before; conv_snapshot t0 (filter (fun e => keep (re_path e)) after)] in
         (* specification, on the raw snapshots *)
         let shared := map re_ino (filter (fun e => strictly_below destreal (re_path e)) before) in
         let contained := sx_eqb (outside_view destreal shared before) (outside_view destreal shared after) in
-        let bad := spec_bad packets sspec_init 0 in
+        let bad := spec_bad_opt mo packets in
         let rejected := match bad with
                         | None => true
                         | Some b => (N.eqb cls 1 || N.eqb cls 3) && not_applied destreal packets b before after
@@ -241,5 +267,16 @@ Definition run_0302 (input impl : sx) : sx :=
       end
     | _, _, _, _ => v_malformed
     end
-  | _, _ => v_malformed
+  | _ => v_malformed
+  end.
+
+Definition run_0302 (input impl : sx) : sx :=
+  match input with
+  | SL [SL ops; SB dest; SL pks; SN mg] => run_0302_opt ops dest pks mg None impl
+  | SL [SL ops; SB dest; SL pks; SN mg; SL [mox; SL []]] =>
+    match dec_pred mox with
+    | Some mo => run_0302_opt ops dest pks mg mo impl
+    | None => v_malformed
+    end
+  | _ => v_malformed
   end.
